@@ -82,9 +82,7 @@ func c19child(args []string) {
 		})
 	case "listeners":
 		mgr := service.NewListenerManager()
-		l0, _ := net.Listen("tcp", "127.0.0.1:0")
-		addr := l0.Addr().String()
-		l0.Close()
+		addr := fmt.Sprintf("127.0.0.1:%d", freeLowPorts(1))
 		var hs []service.StreamListener
 		for i := 0; i < 4; i++ {
 			h, err := mgr.ListenStream(addr)
